@@ -10,7 +10,8 @@
     write x          in-place store into the buffer x denotes (`+=`, `update_array`, `x[i] = v`,
                      `x.attr = v`, `x.pop()`)
     call ws x ys     call of another function that stores in place into the buffers of `ws` and whose
-                     result x is a new buffer or one of ys
+                     result x is a new buffer or one of ys (emitted by the scanner as the last instruction of
+                     the CALLER-side slices of private helpers and of the backend primitive, see `Reason`)
 
   with a small-step semantics over abstract buffer ids, an allocation pointer and an OWNERSHIP map
   (caller-owned vs locally allocated), and the static discipline `writesOnlyFresh`: every written (or
@@ -135,6 +136,31 @@ inductive ProvClass where
   | fresh | viewOfFresh | loopCarried | matmulResult | param | unknown
   deriving DecidableEq, Repr
 
+/-- WHY a write whose own slice does not obey the discipline is nevertheless harmless — established by
+    the scanner's interprocedural / field analysis and emitted as DATA that `Site.ok` checks (no prose):
+
+    * `privateHelper callers` — the function is a helper that is not exported and is referenced in the
+      package only as the callee of direct calls; `callers` = for EVERY call site the caller-side slice
+      defining the actual argument, ending in the interprocedural edge `call [arg] r [arg]`
+      (arguments that are parameters of a private helper are substituted through its callers);
+    * `primitive callers` — the in-place backend primitive (`np_fns.update_array`): `callers` = the
+      slices of all calls `….update_array(t, …)` of the library, ending in `call [t] r [t]`;
+    * `ownedField defs` — the target is (the contents of) an attribute `self.F`; `defs` = for EVERY store
+      to `F` (in the class, and through other receivers anywhere in the library) the slice defining the
+      stored object followed by `write`;
+    * `writeOnlyField reads` — the site re-binds an attribute outside the constructor; `reads` = number of
+      library reads of that attribute (must be 0: no computation of cola depends on it);
+    * `classLevel` — the target is reached through `__class__` (the registry of Model/Registry.lean);
+    * `none` — nothing established. -/
+inductive Reason where
+  | none
+  | privateHelper (callers : List Prog)
+  | primitive (callers : List Prog)
+  | ownedField (defs : List Prog)
+  | writeOnlyField (reads : Nat)
+  | classLevel
+  deriving DecidableEq, Repr
+
 structure Site where
   file : String
   func : String
@@ -145,6 +171,8 @@ structure Site where
   cls : ProvClass
   chain : String
   prog : Prog
+  reason : Reason := .none
+  reasonText : String := ""
   deriving Repr
 
 end ColaVerif.Heap
